@@ -9,6 +9,7 @@ import Ts.Model.Psi
 import Ts.Model.Tables
 import Ts.Model.Demux
 import Ts.Model.App
+import Ts.Model.Values
 import Ts.Gen.Consts
 /-!
 # Line-protocol driver: one op per line in, one canonical result line out.
@@ -325,6 +326,21 @@ def step (line : String) : String :=
       | some x, some y => opCref x y
       | _, _ => "bad-op")
   | ["crefs", h] => runS (opCrefs (bytesOfHex h))
+  | ["pidtry", v] => (match v.toNat? with
+      | some n => (match Values.pidTryFrom n with | some p => s!"ok:{p}" | none => "err")
+      | none => "bad-op")
+  | ["pidnew", v] => (match v.toNat? with
+      | some n => (match Values.pidNew n with | .ok p => s!"ok:{p}" | .panic _ => "refused")
+      | none => "bad-op")
+  | ["ccnew", v] => (match v.toNat? with
+      | some n => (match Values.ccNew n with | .ok p => s!"ok:{p}" | .panic _ => "refused")
+      | none => "bad-op")
+  | ["tsh", h] => runS (do
+      let t ← Values.tshFields (bytesOfHex h)
+      pure s!"id={t.id} ver={t.version} cur={fb t.current} sn={t.sectionNumber} lsn={t.lastSectionNumber}")
+  | ["sch", h] => runS (do
+      let t ← Psi.headerNew (bytesOfHex h)
+      pure s!"tid={t.tableId} syn={fb t.syntaxInd} priv={fb t.privateInd} len={t.sectionLength}")
   | ["crc", h] => runS (do let c ← Crc.sum32 (bytesOfHex h); pure s!"{c}")
   | ["pat", h] => runS (do let es ← Tables.patProgramsAll (bytesOfHex h); pure (fPat es))
   | ["pmt", h] => runS (opPmt (bytesOfHex h))
